@@ -119,7 +119,29 @@ func genConcat(r *gen.R, validOnly bool) (mon.OpReq, Expect, bool) {
 		ax = axis - rank
 	}
 	if !validOnly && r.Chance(0.25) {
-		switch r.Intn(3) {
+		switch r.Intn(4) {
+		case 3:
+			// an input without elements that ALSO disagrees with the others (another extent off
+			// the axis, or another rank): no valid result, whatever the library does with empty inputs
+			k := r.Intn(n + 1)
+			var shape []int
+			if rank > 1 && r.Bool() {
+				shape = append([]int{}, first.Shape...)
+				other := (axis + 1) % rank
+				shape[other] = first.Shape[other] + r.Range(1, 2)
+				shape[r.PickInt(axis, axis, other)] = 0
+				if shape[other] == 0 && rank > 2 { // keep the disagreement: the zero extent sits on a third axis
+					shape[other] = first.Shape[other] + 1
+					shape[(axis+2)%rank] = 0
+				}
+			} else {
+				shape = []int{0}
+				if rank == 1 || r.Bool() {
+					shape = append([]int{0}, first.Shape...)
+				}
+			}
+			empty := ref.New(first.DT, shape...)
+			ins = append(ins[:k], append([]*ref.T{empty}, ins[k:]...)...)
 		case 0:
 			ax = r.PickInt(rank, rank+1, -rank-1, -rank-2)
 			if r.Chance(0.15) {
@@ -142,6 +164,13 @@ func genConcat(r *gen.R, validOnly bool) (mon.OpReq, Expect, bool) {
 	}
 	req := mon.OpReq{Op: "Concat", Inputs: ins, Attrs: []*mon.Attr{mon.AttrI("axis", int64(ax))}}
 	want, err := ref.Concat(ins, ax)
+	if err == nil {
+		for _, in := range ins {
+			if len(in.Bits) == 0 { // well-formed requests with empty inputs are not judged here
+				return genConcat(r, true)
+			}
+		}
+	}
 	return req, expCore(want, err, true), true
 }
 
